@@ -354,6 +354,32 @@ def check_case(ctx, case):
                         break
         else:
             ctx.count("skipped:single_precision_catalog_rejected")     # float32 rounding may move an event across the region's border
+    # ---- the magnitude grid built the way users build it, numpy.arange(start, stop, step): its edges wander an ulp off the decimals, an
+    # event ON a decimal edge is then within round-off of the arange edge and either bin is admissible - but ONE bin, the same
+    # in every gridding of the catalog: total, marginal over space == magnitude histogram, explicit == region-bound
+    if case.get("arange_edges") and n and not outside and not below and len(edges) >= 2 and case["region"]["kind"] == "cart":
+        step_f = float(case["mags"]["step"])
+        ar = numpy.arange(edges[0], edges[0] + step_f * (len(edges) - 0.5), step_f)
+        if len(ar) == len(edges):
+            reg_ar = call(M.build, ar)
+            if reg_ar.ok:
+                res = {}
+                for vname, vkw, reg in (("explicit", {"mag_bins": ar}, region), ("bound", {}, reg_ar.value)):
+                    c3 = CSEPCatalog(data=list(events), region=reg)
+                    o1, o2 = call(lambda: c3.spatial_magnitude_counts(**vkw)), call(lambda: c3.magnitude_counts(**vkw))
+                    if not (o1.ok and o2.ok):
+                        ctx.unexpected(o1 if not o1.ok else o2, "counts_on_arange_edges:" + vname)
+                        continue
+                    g1, g2 = numpy.asarray(o1.value), numpy.asarray(o2.value)
+                    res[vname] = (g1, g2)
+                    ctx.count("arange_edge_grids:" + vname)
+                    if g1.shape != E.shape or g2.shape != want_mag.shape:
+                        ctx.violation("arange_edges:shape", {"variant": vname})
+                    elif g1.sum() != n or g2.sum() != n or not numpy.array_equal(g1.sum(axis=0), g2):
+                        ctx.violation("arange_edges:magnitude_histogram_differs_from_space_magnitude_marginal",
+                                      {"variant": vname, "smc_marginal": g1.sum(axis=0).tolist(), "mc": g2.tolist(), "n": n})
+                if len(res) == 2 and all(v[0].shape == E.shape for v in res.values()) and not numpy.array_equal(res["explicit"][1], res["bound"][1]):
+                    ctx.violation("arange_edges:region_bound_differs_from_explicit_bins", {"explicit": res["explicit"][1].tolist(), "bound": res["bound"][1].tolist()})
     # ---- bin count == equivalent magnitude-range filter
     if n and not below:
         om = call(lambda: cat().magnitude_counts(**kw))
@@ -455,6 +481,8 @@ def cases(draw, max_events=40):
         case["repeat"] = draw(st.sampled_from([30, 100]))
     if draw(st.integers(0, 4)) == 0:
         case["f4_columns"] = True
+    if mc["n"] >= 2 and draw(st.integers(0, 3)) == 0:
+        case["arange_edges"] = True
     if draw(st.booleans()):
         case["family"] = "mixed"
         pos = []
